@@ -89,3 +89,11 @@ Definition chk_reindex (tol : Q) (ps : list poly) (conv : list Z) (pos : list (V
 (* hypotheses of C20_reindex_exact on this input *)
 Definition reindex_hyps (ps : list poly) (conv : list Z) : bool :=
   forallb (fun v => (0 <=? v) && (v <? Z.of_nat (length conv)) && (znth v conv v =? v)) (all_nodes ps).
+
+(* ------------------------------------------------ remove_one_edge (exact) *)
+From FV.C20 Require Import ModelEdge.
+Definition chk_remove_edge (p : poly) (A B : Z) (ok : bool) (p' : poly) : bool :=
+  match remove_one_edge p A B with
+  | Some q => ok && polys_eqb [q] [p']
+  | None => negb ok && polys_eqb [p] [p']
+  end.
